@@ -125,14 +125,32 @@ def rbsStepOn (cplx : Bool) (a b : Nat) (cs : List Nat) : StepFn := fun k =>
       [{ kind := .RZ, q0 := a, f := k, neg := true, ctrl := cs }, { kind := .RZ, q0 := b, f := k, ctrl := cs }]
     else [])
 
-def rbsStep (n : Nat) (cplx : Bool) (st : Step) : StepFn :=
-  rbsStepOn cplx (n - 1 - st.src) (n - 1 - st.dst) (sortNat (st.controls.map (fun c => n - 1 - c)))
-
 /-- the rotation that opens the next Hamming-weight block (`RY(q, 2θ)` / `U3(q, 2θ, 2φ, 0)`,
 the very last one `U3(q, 2θ, φ', λ')`), controlled on `cs`. -/
 def ryStep (cplx last : Bool) (q : Nat) (cs : List Nat) : StepFn := fun k =>
   [if cplx then { kind := if last then .U3L else .U3, q0 := q, e := k, f := k, ctrl := cs }
    else { kind := .RY, q0 := q, e := k, ctrl := cs }]
+
+/-- description of one step of a loading chain: `add = false`: move the 1 from qubit `a` to
+qubit `b` (controlled RBS, for complex data with its two RZ gates); `add = true`: write a 1 on
+qubit `a` (controlled RY / U3; `last`: the very last U3 of the complex encoder). -/
+structure ChainStep where
+  add : Bool
+  a : Nat
+  b : Nat := 0
+  cs : List Nat
+  last : Bool := false
+  deriving DecidableEq, Repr, Inhabited
+
+def ChainStep.fn (cplx : Bool) (d : ChainStep) : StepFn :=
+  if d.add then ryStep cplx d.last d.a d.cs else rbsStepOn cplx d.a d.b d.cs
+
+/-- the step of the walk `st` (positions of the numpy array) as a chain step on qubits. -/
+def moveStep (n : Nat) (st : Step) : ChainStep :=
+  { add := false, a := n - 1 - st.src, b := n - 1 - st.dst,
+    cs := sortNat (st.controls.map (fun c => n - 1 - c)) }
+
+def rbsStep (n : Nat) (cplx : Bool) (st : Step) : StepFn := (moveStep n st).fn cplx
 
 /-! ## binary_encoder, hyperspherical parametrisation -/
 
@@ -144,25 +162,35 @@ def hsIdx (last : List Bool) (w : Nat) : Nat :=
 /-- the blocks of weight `w, w+1, …` (`fuel` of them): the walk of `hamming_weight_encoder(…,
 full_hwp=True, optimize_controls=False, phase_correction=False, initial_string=init)` followed
 by the gate of `_intermediate_gate`. -/
-def hsBlocksFrom (n : Nat) (cplx : Bool) : Nat → Nat → List Bool → List StepFn
+def hsChainFrom (n : Nat) : Nat → Nat → List Bool → List ChainStep
   | 0, _, _ => []
   | fuel + 1, w, init =>
     let last := ehrLast init
     let idx := hsIdx last w
-    (ehrlich init).map (rbsStep n cplx) ++
-      [ryStep cplx (fuel == 0) (n - 1 - idx) (sortNat ((onesOf last).map (fun c => n - 1 - c)))] ++
-      hsBlocksFrom n cplx fuel (w + 1) (last.set idx true)
+    (ehrlich init).map (moveStep n) ++
+      [{ add := true, a := n - 1 - idx, cs := sortNat ((onesOf last).map (fun c => n - 1 - c)),
+         last := fuel == 0 }] ++
+      hsChainFrom n fuel (w + 1) (last.set idx true)
 
-def hsSteps (n : Nat) (cplx : Bool) : List StepFn :=
-  ryStep cplx (n == 1) (n - 1) [] :: hsBlocksFrom n cplx (n - 1) 1 (true :: List.replicate (n - 1) false)
+/-- the steps of `binary_encoder(data, "hyperspherical")` on `n` qubits. -/
+def hsChain (n : Nat) : List ChainStep :=
+  { add := true, a := n - 1, cs := [], last := n == 1 } ::
+    hsChainFrom n (n - 1) 1 (true :: List.replicate (n - 1) false)
+
+def hsSteps (n : Nat) (cplx : Bool) : List StepFn := (hsChain n).map (·.fn cplx)
 
 /-- queue of `binary_encoder(data, "hyperspherical")` on `n` qubits (`cplx`: complex dtype). -/
 def hsEncoder (n : Nat) (cplx : Bool) : List BG := numberSteps (hsSteps n cplx)
 
 /-- the basis states in the order in which the encoder writes them (numpy-array bit order:
 position `p` is qubit `n-1-p`): `0^n`, the walks of weight `1 … n-1`, `1^n`. -/
+def hsWalkFrom : Nat → Nat → List Bool → List (List Bool)
+  | 0, _, init => [init]
+  | fuel + 1, w, init =>
+    ehrlichStrings init ++ hsWalkFrom fuel (w + 1) ((ehrLast init).set (hsIdx (ehrLast init) w) true)
+
 def hsWalk (n : Nat) : List (List Bool) :=
-  List.replicate n false :: ((hsInits n).flatMap ehrlichStrings ++ [List.replicate n true])
+  List.replicate n false :: hsWalkFrom (n - 1) 1 (true :: List.replicate (n - 1) false)
 
 /-! ## binary_encoder, Hopf parametrisation -/
 
